@@ -33,11 +33,17 @@ def _digests(mname, seed, indices, twice):
     if not os.environ.get("VERIF_DEBUG"):
         sys.stderr = open(os.devnull, "w")
     out = {}
+    # as in the runner: machines marked ISOLATE execute every run in a forked child of the (warmed-up) worker, so
+    # that nothing a third-party optimiser keeps in static memory leaks from one run into the next
+    isolate = getattr(mod, "ISOLATE", False)
+    if isolate and hasattr(mod, "warmup"):
+        mod.warmup()
+    one = (lambda i: runner.execute_run_isolated(mod, seed, i, "quick")) if isolate else (lambda i: runner.execute_run(mod, seed, i, "quick"))
     for i in indices:
-        r = runner.execute_run(mod, seed, i, "quick")
+        r = one(i)
         d = (r["digest"], r["status"])
         if twice:
-            r2 = runner.execute_run(mod, seed, i, "quick")
+            r2 = one(i)
             if (r2["digest"], r2["status"]) != d:
                 d = (d, (r2["digest"], r2["status"]), "DIFFERS-IN-PROCESS")
         out[i] = d
